@@ -26,6 +26,15 @@ CHECKS = {
          "`interval` certificates that the probabilities used equal the R model's. PARTIAL: the distributional claim over numpy's random streams is not modelled.",
     ref="6 C03", technique="Rocq proof over R (Rpower law, jump_iff) + interval certificates + scripted-generator lockstep differential",
     note=TB % "c03" + "the generator object of the Snowflake is replaced harness-side; xi_v reproduced as norm.ppf(rand) after np.random.seed(seed_v); standard normal / uniform distribution of numpy streams trusted."),
+ "C04": dict(
+    cat="proof",
+    text="Object-level state machine of the random-stream bookkeeping (model/FlakeObj.v: seed setter, lazy getters, matrix/shelf builders, 'random' recording, run; Snowfall as "
+         "an arbitrary partition of seeds into sequential worker chunks). Theorems by induction over histories / chunk lists (props/C04.v, axiom-free): every run of every history reads "
+         "exactly the variates determined by configuration and the seed in force; Snowfall repetition s = stand-alone run with seed s for every partition, every seed reported once; the "
+         "pinned revision is refuted by computed witnesses. Tied to the code by logged generators (which generator and stream position feed the shelf vector and the first dice) on random "
+         "histories, and by bit-identical statistics across histories, recording selections, execution modes and pool sizes. PARTIAL: OS scheduling is sampled, not enumerated.",
+    ref="6 C04", technique="Rocq proof (state machine invariant by induction over operation histories and chunk partitions) + logged-generator correspondence + bit-identity oracle",
+    note=TB % "c04" + "numpy's generator is a deterministic function of seed and consumed variates (model cursor); multiprocessing copies the template per task; the vial seed uses the global numpy stream re-seeded inside run."),
  "C05": dict(
     cat="proof",
     text="Theorems over R for every program with positive rate/step/total time and end <= hold temperatures <= start (props/C05.v): "
